@@ -132,7 +132,7 @@ def c_from_raw_var_bytes(it, recv, a):
     pt = VOpaque("G1Affine::from_slice_unchecked", [Sym(chunks.path + "[*]")])
     valid = VOpaque("and", [VOpaque("is_on_curve", [pt]), VOpaque("is_torsion_free", [pt])])
     it.ctx.event("for_each_in_order", chunks.path, (), (("err_if", VOpaque("not", [valid]), "Error::PointMalformed"),))
-    return VOk(VStruct("Self", {"powers_of_g": VArr([VOpaque("for_each_pushed", [chunks, pt])], "vec")}))
+    return VOk(VStruct("CommitKey", {"powers_of_g": VArr([VOpaque("for_each_pushed", [chunks, pt])], "vec")}))
 
 
 CONTRACTS["G1Affine::from_slice_unchecked"] = lambda it, recv, a: VOpaque("G1Affine::from_slice_unchecked", [a[0]])
